@@ -22,6 +22,28 @@ DESIGN_REF = 'DESIGN.md section 6 C14'
 U = ['kg/(m2*h*kPa)', 'SI', 'GPU']
 
 
+def near_unit(rng):
+    """an unsupported unit string one edit away from a supported one (prefix, suffix, case, one character changed):
+    look-alikes are what a unit classification by prefix / substring / case-folding would wrongly accept"""
+    while True:
+        u = rng.choice(U)
+        r = rng.random()
+        if r < 0.2:
+            v = u + rng.choice([' ', 's', '*', '/s', '2'])
+        elif r < 0.4:
+            v = rng.choice([' ', 'k', 'm']) + u
+        elif r < 0.6:
+            i = rng.randrange(len(u))
+            v = u[:i] + u[i + 1:]
+        elif r < 0.8:
+            i = rng.randrange(len(u))
+            v = u[:i] + rng.choice('hsPakgmGU*/()2') + u[i + 1:]
+        else:
+            v = rng.choice([u.lower(), u.upper(), u.title(), u[:2], u[:len(u) // 2]])
+        if v not in U:
+            return v
+
+
 def oracle(rng, tier):
     comps = gens.builtin_components()
     while True:
@@ -74,7 +96,7 @@ def oracle(rng, tier):
                 except (ValueError, KeyError):
                     pass
             elif ok and r < 0.75:
-                unk = rng.choice(['barrer', 'gpu', 'si', 'mol/(m2*s*Pa)', ''])
+                unk = rng.choice(['barrer', 'gpu', 'si', 'mol/(m2*s*Pa)', '']) if rng.random() < 0.3 else near_unit(rng)
                 other = rng.choice(U)
                 for (s, t) in ((unk, other), (other, unk)):
                     try:
